@@ -86,3 +86,19 @@ func (c *Ctx) fieldReads(f *types.Var) int {
 	}
 	return reads
 }
+
+// runOptionLivenessFields checks the named fields only.
+func (c *Ctx) runOptionLivenessFields(rule, pkgShort, typeName string, fields ...string) {
+	for _, fname := range fields {
+		f := c.mustField(pkgShort, typeName+"."+fname)
+		if f == nil {
+			continue
+		}
+		key := pkgShort + "." + typeName + "." + fname
+		if n := c.fieldReads(f); n > 0 {
+			c.ok(rule, key, f.Pos(), "read at "+itoa(n)+" site(s) in library code")
+		} else {
+			c.bad(rule, key, f.Pos(), "the documented option is never read by library code: it cannot have any effect")
+		}
+	}
+}
